@@ -475,7 +475,7 @@ class HostConnection(object):
 
             if is_down:
                 self.shutdown()
-            else:
+            elif connection is self._connection:
                 self._connection = None
                 with self._lock:
                     if self._is_replacing:
